@@ -38,6 +38,10 @@ def gen_case(rng, frontend=None):
         if rng.random() < 0.12:
             r = {'t': 'raw', 'pdu': rng.choice(serverlib.OTHER_PDUS)}
         tid = rng.choice([0, 1, 0xFFFF, rng.randrange(65536)])
+        if framer == 'tcp' and frames and rng.random() < 0.25:
+            # ids that look like something else: the CRC-16 (either byte order) or the LRC of the frame in front — a transaction
+            # id is 16 free bits, nothing in a pipelined stream may take it for a trailer of the previous frame
+            tid = serverlib.lookalike_tid(rng, frames[-1])
         if framer == 'tls':
             uid, tid = 0, 0       # a TLS record carries the bare PDU: the ids are the request object's defaults
         if framer == 'rtu' and r['t'] == 'illegalFunction':
@@ -51,6 +55,11 @@ def gen_case(rng, frontend=None):
         reqs.append(execlib.strip(r))
         frames.append(f)
         meta.append({'uid': uid, 'tid': tid, 'fc': pdu[0]})
+        if rng.random() < 0.1:
+            # the master repeats the request, byte for byte
+            reqs.append(execlib.strip(r))
+            frames.append(list(f))
+            meta.append({'uid': uid, 'tid': tid, 'fc': pdu[0]})
     if framer == 'tls':
         chunks = frames           # one PDU per TLS record, one record per read
         per_chunk = [[m] for m in meta]
